@@ -219,6 +219,8 @@ void src_search<T, ES>::tune_parameters()
       && typeid(*this->vs_) == typeid(holdout_validation))
     env.validation_percentage = dflt.validation_percentage;
 
+  env.reconcile(constrained);
+
   Ensures(env.is_valid(true));
 }
 
